@@ -76,6 +76,10 @@ type fileSyntax struct {
 	// link (chain) to a regular file elsewhere (a mounted ConfigMap, a link into src/), "fifo" a named pipe fed in two
 	// writes by another process (a generated configuration)
 	Kind string `json:"file_kind,omitempty"`
+	// Header: the free-form "info" mapping in front of the configuration (version, description) — no procedure reads it:
+	// 0 as shipped (version 0.9.0), 1 no such section, 2 version: 0.9, 3 version: "0.9", 4 version: 1.2.3, 5 version: 2,
+	// 6 a description only, 7 the section behind the configuration
+	Header int `json:"header,omitempty"`
 }
 
 // gnbOctets: the octets of the configured gNB id.
@@ -179,12 +183,34 @@ func (c emuConfig) YAML() string {
 	if c.Syntax.DocStart {
 		out = append(out, "---")
 	}
-	out = append(out, "info:", ind+"version: 0.9.0", ind+"description: generated by the verification harness", "", "configuration:")
+	info := []string{"info:", ind + "version: 0.9.0", ind + "description: generated by the verification harness", ""}
+	switch c.Syntax.Header {
+	case 1:
+		info = nil
+	case 2:
+		info[1] = ind + "version: 0.9"
+	case 3:
+		info[1] = ind + `version: "0.9"`
+	case 4:
+		info[1] = ind + "version: 1.2.3"
+	case 5:
+		info[1] = ind + "version: 2"
+	case 6:
+		info = []string{"info:", ind + "description: site copy, do not edit", ""}
+	}
+	if c.Syntax.Header != 7 {
+		out = append(out, info...)
+	}
+	out = append(out, "configuration:")
 	for i, l := range lines {
 		if c.Syntax.Comments && i%5 == 2 {
 			out = append(out, "", ind+"# "+strings.Repeat("-", 3+i)+" section "+fmt.Sprint(i)+": ue_number: 77")
 		}
 		out = append(out, l)
+	}
+	if c.Syntax.Header == 7 {
+		out = append(out, "")
+		out = append(out, info[:3]...)
 	}
 	nl := "\n"
 	if c.Syntax.CRLF {
